@@ -56,6 +56,12 @@ TRUSTED = [
 ASSUMPTIONS = [
     "storage selections: deterministic ones throughout; `random_n` selections (they consume a draw at construction) in dedicated histories - statistics still must equal the non-recording fresh run",
     "configuration (k, opcond, dt, constants) is not mutated between operations; N_vials may be reassigned (storeStates=None)",
+    "reference runs: fresh objects with the initial state and the overridden configuration keys given explicitly; for the "
+    "cross-object streams (several objects / Snowfall after other objects in one process) they are computed in a fresh interpreter",
+    "the generator proxy observes the KIND and number of draws (normal / uniform / choice) and the stream position, not the "
+    "call form; event-by-event differences and CPython's pool batching are reported as diagnostics, the verdict rests on "
+    "the draw schedule and on bit-identical statistics",
+    "runs in which no vial nucleates (all-NaN statistics) do not count as non-trivial",
 ]
 RULE = ("histories of up to 6 (quick) / 9 (thorough) operations new/seed=/seed_v=/edits of the attached opcond and dt/`_buildHeatflowMatrices`/run/N_vials=/"
         "reads of H_shelf and H_int in both orders on real "
@@ -91,28 +97,30 @@ class RecGen:
     def _pos(self):
         return [self.seed, [list(c) for c in self.hist]]
 
-    def normal(self, *a, **kw):
-        n = int(kw["size"]) if "size" in kw else int(a[2])
-        EVENTS.append(("normal", n, self._pos()))
-        self.hist.append(("normal", n))
-        return self.g.normal(*a, **kw)
+    # which kind of draw a Generator method is: the call FORM (normal vs standard_normal, keyword vs positional
+    # size, random vs uniform) is not observed, only the kind and the number of values drawn
+    KINDS = {"normal": "normal", "standard_normal": "normal", "random": "dice", "uniform": "dice",
+             "choice": "choice", "permutation": "choice", "shuffle": "choice"}
 
-    def random(self, *a, **kw):
-        if self.dice_op != _opid() or not self.hist or self.hist[-1] != ("dice",):
-            EVENTS.append(("dice", None, self._pos()))
-            self.hist.append(("dice",))
-            self.dice_op = _opid()
-        return self.g.random(*a, **kw)
-
-    def choice(self, *a, **kw):
-        n = int(kw["size"]) if kw.get("size") is not None else (int(a[1]) if len(a) > 1 and a[1] is not None else 1)
-        EVENTS.append(("choice", n, self._pos()))
-        self.hist.append(("choice", n))
-        return self.g.choice(*a, **kw)
+    def _draw(self, name, a, kw):
+        res = getattr(self.g, name)(*a, **kw)
+        kind = self.KINDS[name]
+        n = int(np.size(res))
+        if kind == "dice":
+            if self.dice_op != _opid() or not self.hist or self.hist[-1] != ("dice",):
+                EVENTS.append(("dice", None, self._pos()))
+                self.hist.append(("dice",))
+                self.dice_op = _opid()
+        else:
+            EVENTS.append((kind, n, self._pos()))
+            self.hist.append((kind, n))
+        return res
 
     def __getattr__(self, name):
         if name.startswith("__") or "g" not in self.__dict__:
             raise AttributeError(name)
+        if name in self.KINDS:
+            return lambda *a, **kw: self._draw(name, a, kw)
         EVENTS.append(("other:" + name, None, self._pos()))
         return getattr(self.g, name)
 
@@ -332,9 +340,56 @@ def _config_file(text):
     return str(p)
 
 
-def _flake(case, seed, nv, store=None, seed_v=None, cfg=0, start=None, explicit=False):
-    """`explicit`: the initial state is given as an argument (the reference objects); otherwise the constructor's
-    default `initialStates` is used, i.e. the vials start at the programme's start temperature"""
+# nested keys of the YAML configuration that cases override; the reference objects spell ALL of them out
+YAML_KEYS = ["solution.solid_fraction", "water.cp_w", "kinetics.b"]
+_yaml_defaults = {}
+
+
+def _yaml_text(flat):
+    import yaml
+
+    tree = {}
+    for key, val in flat.items():
+        a, b = key.split(".")
+        tree.setdefault(a, {})[b] = val
+    return yaml.safe_dump(tree)
+
+
+def _yaml_for(over, explicit):
+    """configPath for an object: the overrides only (object under test; None = packaged defaults), or - for the
+    reference - every key of YAML_KEYS spelt out: packaged default (read from the YAML file itself) or override"""
+    if not explicit:
+        return _config_file(_yaml_text(over)) if over else None
+    if not _yaml_defaults:
+        import yaml
+
+        with open(core.REPO / "src" / "ethz_snow" / "config" / "snowConfig_default.yaml") as fh:
+            tree = yaml.safe_load(fh)
+        for key in YAML_KEYS:
+            a, b = key.split(".")
+            _yaml_defaults[key] = tree[a][b]
+    flat = dict(_yaml_defaults)
+    flat.update(over or {})
+    return _config_file(_yaml_text(flat))
+
+
+def _init_temp(case, explicit, default):
+    """the `initialStates` argument: None = the constructor's default.  `init = {form, value}`: the initial
+    temperature as a one-element list / tuple / array or a numpy scalar; the reference gives it as a plain float"""
+    init = case.get("init")
+    if init is None:
+        return {"temp": default, "sigma": None} if explicit else None
+    v = init["value"]
+    if explicit:
+        return {"temp": float(v), "sigma": None}
+    temp = {"list": [v], "tuple": (v,), "array": np.array([v], dtype=float), "npfloat": np.float64(v),
+            "intarray": np.array([int(v)])}[init["form"]]
+    return {"temp": temp, "sigma": None}
+
+
+def _flake(case, seed, nv, store=None, seed_v=None, cfg=0, start=None, explicit=False, yamlover=None):
+    """`explicit`: the reference objects - initial state and configuration values are given as arguments; otherwise
+    the constructor's default `initialStates` and the packaged default configuration (plus the overrides) are used"""
     from ethz_snow.snowflake import Snowflake
 
     spec = _spec(case, cfg, start)
@@ -344,20 +399,69 @@ def _flake(case, seed, nv, store=None, seed_v=None, cfg=0, start=None, explicit=
     if seed_v is not None:
         kw["seed_v"] = seed_v
     kw.setdefault("dt", spec["dt"])
-    if explicit:
-        kw["initialStates"] = {"temp": spec["start"], "sigma": None}
+    ini = _init_temp(case, explicit, spec["start"])
+    if ini is not None:
+        kw["initialStates"] = ini
+    if "configPath" not in kw:
+        path = _yaml_for(yamlover, explicit)
+        if path:
+            kw["configPath"] = path
     return Snowflake(k=_k(case), N_vials=tuple(nv), seed=seed, opcond=_opcond(spec), storeStates=store, **kw)
 
 
-def _fresh(case, seed, nv, cache, seed_v=None, cfg=0, start=None):
-    key = (seed, tuple(nv), seed_v, cfg, start)
+_PENDING = []      # reference runs of the current case that are to be made in a fresh interpreter
+
+
+def _fresh(case, seed, nv, cache, seed_v=None, cfg=0, start=None, yamlover=None):
+    key = (seed, tuple(nv), seed_v, cfg, start, core.json.dumps(yamlover, sort_keys=True))
+    if case.get("xref"):
+        # cross-object streams: whatever an earlier object of THIS process may have left in class- or module-level
+        # state must not reach the reference - it is computed in a fresh interpreter (see `_resolve`)
+        if key not in cache:
+            cache[key] = {"pending": len(_PENDING)}
+            _PENDING.append(dict(seed=seed, nv=list(nv), seed_v=seed_v, cfg=cfg, start=start, yamlover=yamlover))
+        return cache[key]
     if key not in cache:
         # the reference states its initial temperature explicitly: nothing an earlier object of this process may
         # have left in a shared default can reach it
-        S = _flake(case, seed, nv, seed_v=seed_v, cfg=cfg, start=start, explicit=True)
+        S = _flake(case, seed, nv, seed_v=seed_v, cfg=cfg, start=start, explicit=True, yamlover=yamlover)
         S.run()
         cache[key] = _digest(S.stats)
     return cache[key]
+
+
+def _ref_main(req):
+    """entry point of the fresh interpreter: digests of the requested reference runs"""
+    T_TOT[0] = req["t_tot"]
+    out = []
+    for r in req["refs"]:
+        S = _flake(req["case"], r["seed"], r["nv"], seed_v=r["seed_v"], cfg=r["cfg"], start=r["start"], explicit=True,
+                   yamlover=r["yamlover"])
+        S.run()
+        out.append(_digest(S.stats))
+    return out
+
+
+def _resolve(case, holders):
+    """run the pending references in ONE fresh interpreter and put the digests where the tokens are"""
+    if not _PENDING:
+        return
+    import subprocess
+    import sys
+
+    code = ("import sys, json; sys.path.insert(0, %r); from props import c04; "
+            "print('DIGESTS ' + json.dumps(c04._ref_main(json.loads(sys.stdin.read()))))" % str(core.VERIF / "harness"))
+    req = {"case": {k: v for k, v in case.items() if k not in ("ops",)}, "refs": list(_PENDING), "t_tot": T_TOT[0]}
+    del _PENDING[:]
+    r = subprocess.run([sys.executable, "-c", code], input=core.json.dumps(req), capture_output=True, text=True,
+                       timeout=600)
+    line = next((l for l in r.stdout.splitlines() if l.startswith("DIGESTS ")), None)
+    if line is None:
+        raise RuntimeError("reference interpreter failed: " + r.stderr[-600:])
+    digests = core.json.loads(line[8:])
+    for h in holders:
+        if isinstance(h.get("fresh"), dict) and "pending" in h["fresh"]:
+            h["fresh"] = digests[h["fresh"]["pending"]]
 
 
 def _run_history(case, store=None):
@@ -365,7 +469,7 @@ def _run_history(case, store=None):
     ops_obs = []
     fresh = {}
     cfg = 0
-    n_new, start = 0, None
+    n_new, start, yamlover = 0, None, None
     for op in case["ops"]:
         mark = _begin()
         o = {"op": op}
@@ -373,8 +477,10 @@ def _run_history(case, store=None):
             # successive objects of one history (one process) are built for different start temperatures
             starts = case.get("starts") or [None]
             start = starts[n_new % len(starts)]
+            configs = case.get("configs") or [None]
+            yamlover = configs[n_new % len(configs)]
             n_new += 1
-            S = _flake(case, op[1], op[2:5], store, start=start)
+            S = _flake(case, op[1], op[2:5], store, start=start, yamlover=yamlover)
             cfg = 0
         elif op[0] == "editCfg":
             cfg = op[1]
@@ -405,19 +511,26 @@ def _run_history(case, store=None):
             o["xi"] = next(([e[1], e[2]] for e in evs if e[0] == "xi"), None)
             o["cfg"] = cfg
             o["start"] = start
-            o["fresh"] = _fresh(case, int(S.seed), list(S.N_vials), fresh, int(S.seed_v), cfg, start)
+            o["yaml"] = yamlover
+            o["fresh"] = _fresh(case, int(S.seed), list(S.N_vials), fresh, int(S.seed_v), cfg, start, yamlover)
         ops_obs.append(o)
+    _resolve(case, ops_obs)
     return ops_obs
 
 
 def _run_fall(case):
     from ethz_snow.snowfall import Snowfall
 
-    if case.get("decoy_start") is not None:
-        # another object built earlier in this process, for another start temperature
-        _flake(case, 1, case["nv"], start=case["decoy_start"])
+    if case.get("decoy_start") is not None or case.get("decoy_yaml"):
+        # another object built earlier in this process: other start temperature / custom configuration file
+        _flake(case, 1, case["nv"], start=case.get("decoy_start"), yamlover=case.get("decoy_yaml"))
     kw = _kw(case)
     kw.setdefault("dt", DT)
+    ini = _init_temp(case, False, None)
+    if ini is not None:
+        kw["initialStates"] = ini
+    if case.get("yaml") and "configPath" not in kw:
+        kw["configPath"] = _yaml_for(case["yaml"], False)
     mark = _begin()
     F = Snowfall(Nrep=case["nrep"], pool_size=case["pool"], k=_k(case), N_vials=tuple(case["nv"]),
                  opcond=_opcond(_spec(case, 0, case.get("start"))), **kw)
@@ -433,13 +546,15 @@ def _run_fall(case):
             t = st.pop("_c04")
             t["seed"] = int(i)
             t["digest_parent"] = _digest(st)
-            t["fresh"] = _fresh(case, int(i), case["nv"], fresh, (case.get("kw") or {}).get("seed_v"), 0, case.get("start"))
+            t["fresh"] = _fresh(case, int(i), case["nv"], fresh, (case.get("kw") or {}).get("seed_v"), 0, case.get("start"),
+                                case.get("yaml"))
             tasks.append(t)
         # chunks: tasks grouped by the object copy they ran on, in execution order
         groups = {}
         for t in sorted(tasks, key=lambda t: (t["tag"], t["seq"])):
             groups.setdefault(tuple(t["tag"]), []).append(t["seed"])
         chunks = sorted(groups.values(), key=lambda c: c[0])
+        _resolve(case, tasks)
         obs["passes"].append({"how": how, "keys": [int(i) for i in sorted(F.stats)],
                               "tasks": tasks, "chunks": chunks,
                               "same_object": len(groups) == 1 and how == "sequential"})
@@ -527,9 +642,10 @@ def run_model(drv, case):
 def _cmp_trace(ops_obs, trace, dis, where=""):
     runs = 0
     for i, o in enumerate(ops_obs):
-        if o["evs"] != trace["evs"][i]:
-            dis.append(f"{where}op {i} {o['op']}: generator events impl {o['evs']} vs model {trace['evs'][i]}")
-            return
+        if o["evs"] != trace["evs"][i] and not any(d.startswith("TIE:") for d in dis):
+            # the call pattern is a diagnostic; the verdict is about the draw schedule and the results
+            dis.append(f"TIE: [diagnostic, not a verdict] {where}op {i} {o['op']}: generator events impl {o['evs']} vs "
+                       f"model {trace['evs'][i]}")
         if o["op"][0] == "run":
             if o["sched"] != trace["scheds"][runs]:
                 dis.append(f"{where}op {i} run: schedule impl {o['sched']} vs model {trace['scheds'][runs]}")
@@ -561,12 +677,14 @@ def compare(case, impl, model):
         return dis
     if case["kind"] == "history":
         _cmp_trace(impl["ops"], model["trace"], dis)
-        if dis:
+        hard = [d for d in dis if not d.startswith("TIE:")]
+        if hard:
             d_old = []
             _cmp_trace(impl["ops"], model["trace_old"], d_old)
-            if not d_old:
-                dis[0] = "implementation follows the PRE-REPAIR model (runOld, defect F3), not the repaired one: " + dis[0]
-        _same_sched_same_stats([([o["sched"], o["xi"], o["cfg"], o["start"]], o["digest"]) for o in impl["ops"] if o["op"][0] == "run"], dis)
+            if not [d for d in d_old if not d.startswith("TIE:")]:
+                dis[dis.index(hard[0])] = ("implementation follows the PRE-REPAIR model (runOld, defect F3), not the "
+                                           "repaired one: " + hard[0])
+        _same_sched_same_stats([([o["sched"], o["xi"], o["cfg"], o["start"], o["yaml"]], o["digest"]) for o in impl["ops"] if o["op"][0] == "run"], dis)
     elif case["kind"] == "record":
         for v in impl["variants"]:
             _cmp_trace(v["ops"], model["trace"], dis, where=f"storeStates={v['store']!r}: ")
@@ -583,13 +701,15 @@ def compare(case, impl, model):
         pre.append(["build"])
         r0 = drv.call({"op": "c04_chunks", "sigmaPos": _sigma_pos(case), "pre": pre})["pre"]
         if impl["init_evs"] != [e for evs in r0["evs"] for e in evs]:
-            dis.append(f"Snowfall.__init__: events impl {impl['init_evs']} vs model {r0['evs']}")
+            dis.append(f"TIE: [diagnostic, not a verdict] Snowfall.__init__: events impl {impl['init_evs']} vs model {r0['evs']}")
         allruns = []
         for p in impl["passes"]:
             if p["keys"] != list(range(case["nrep"])):
                 dis.append(f"{p['how']}: stats keys {p['keys']} != 0..Nrep-1")
             if p["how"] != "sequential" and p["chunks"] != model["poolChunks"]:
-                dis.append(f"{p['how']}: observed chunking {p['chunks']} vs modelled Pool batches {model['poolChunks']}")
+                # CPython's batching is not part of the property (the theorems hold for every chunking)
+                dis.append(f"TIE: [diagnostic, not a verdict] {p['how']}: observed chunking {p['chunks']} vs modelled Pool "
+                           f"batches {model['poolChunks']}")
             if p["how"] == "sequential" and not p["same_object"]:
                 dis.append("sequential: tasks did not run on one object")
             r = drv.call({"op": "c04_chunks", "sigmaPos": _sigma_pos(case), "pre": pre,
@@ -600,8 +720,8 @@ def compare(case, impl, model):
                     t = by_seed[i]
                     mev = tr["evs"][2 * j] + tr["evs"][2 * j + 1]
                     if t["evs"] != mev:
-                        dis.append(f"{p['how']} task {i} (chunk {ch}): events impl {t['evs']} vs model {mev}")
-                        break
+                        dis.append(f"TIE: [diagnostic, not a verdict] {p['how']} task {i} (chunk {ch}): events impl "
+                                   f"{t['evs']} vs model {mev}")
                     if t["sched"] != tr["scheds"][j]:
                         dis.append(f"{p['how']} task {i} (chunk {ch}): schedule impl {t['sched']} vs model {tr['scheds'][j]}")
                         break
@@ -630,7 +750,8 @@ def predicates(case, impl):
             if o["op"][0] == "run" and o["digest"] != o["fresh"]:
                 out.append(Failure(
                     clause="run_schedule_canonical", key=f"history_independent|Snowflake.run|{var}",
-                    detail=f"after {[x['op'] for x in impl['ops'][:i]]} (start temperatures of the objects built: {case.get('starts')}) "
+                    detail=f"after {[x['op'] for x in impl['ops'][:i]]} (objects built for start temperatures {case.get('starts')}, "
+                           f"configuration files {case.get('configs')}, initial temperature given as {case.get('init')}) "
                            f"the run with seed {o['seed']}, seed_v {o['seed_v']}, N_vials "
                            f"{o['sched']['nv']}, configuration {o['cfg']} = {_spec(case, o['cfg'])} differs bit-wise from a fresh "
                            f"Snowflake(seed={o['seed']}, seed_v={o['seed_v']}) of that configuration "
@@ -692,7 +813,10 @@ def nontrivial(case, impl):
     if impl.get("raise"):
         return False
     if case["kind"] == "history":
-        return any(o["op"][0] == "run" and o["nucleated"] > 0 for o in impl["ops"])
+        # an all-NaN statistics record (no vial nucleated) compares equal to anything of its kind: such a run does
+        # not count; the case is non-trivial only if its LAST run has nucleated vials
+        runs = [o for o in impl["ops"] if o["op"][0] == "run"]
+        return bool(runs) and runs[-1]["nucleated"] > 0
     if case["kind"] == "record":
         return bool(impl.get("final_stamp", True))
     return any(t["nucleated"] > 0 for p in impl["passes"] for t in p["tasks"])
@@ -761,11 +885,26 @@ def _targeted(rng):
     s0, s1 = rng.choice(SEEDS), rng.choice(SEEDS)
     a, b = rng.choice([([3, 2, 1], [2, 3, 1]), ([2, 3, 1], [3, 2, 1]), ([3, 3, 1], [2, 2, 1]), ([2, 2, 1], [1, 3, 1])])
     v = rng.choice([2, 7])
-    k = rng.randrange(12)
+    k = rng.randrange(16)
+    if k >= 14:
+        # a (1,1,1) batch whose initial temperature is a one-element sequence / numpy scalar, run repeatedly
+        init = dict(form=rng.choice(["list", "tuple", "array", "npfloat", "intarray"]), value=rng.choice([5, 3, 5.0, 2]))
+        nv1 = rng.choice([[1, 1, 1], [1, 1, 1], [2, 1, 1], [2, 2, 1]])
+        return dict(kind="history", sigma=sigma, cfgs=_cfg_specs(rng), init=init, xref=True,
+                    ops=[["new", s0] + nv1, ["run"], ["run"]] if k == 14 else
+                        [["new", s0] + nv1, ["run"], ["setSeed", s1], ["run"], ["setSeed", s0], ["run"]])
+    if k >= 12:
+        # an object built from a CUSTOM YAML overriding one nested key, then objects with the packaged defaults /
+        # with a custom file that does not touch that key
+        over = rng.choice([{"solution.solid_fraction": 0.1}, {"water.cp_w": 4000}, {"kinetics.b": 30.0}])
+        other = rng.choice([None, None, {"water.cp_w": 4100} if "water.cp_w" not in over else {"kinetics.b": 29.0}])
+        return dict(kind="history", sigma=sigma, cfgs=_cfg_specs(rng), configs=[over, other], xref=True,
+                    ops=[["new", s0] + a, ["run"], ["new", s1] + a, ["run"]] if k == 12 else
+                        [["new", s0] + a, ["new", s1] + b, ["run"], ["new", s0] + a, ["setSeed", s1], ["run"]])
     if k >= 10:
         # two objects constructed one after the other in this process, for different start temperatures
         T1, T2 = rng.sample([8, 5, 2, 0, -2], 2)
-        return dict(kind="history", sigma=sigma, cfgs=_cfg_specs(rng), starts=[T1, T2],
+        return dict(kind="history", sigma=sigma, cfgs=_cfg_specs(rng), starts=[T1, T2], xref=True,
                     ops=[["new", s0] + a, ["run"], ["new", s1] + b, ["run"]] if k == 10 else
                         [["new", s0] + a, ["new", s1] + b, ["setSeed", s0], ["run"]])
     if k >= 6:
@@ -856,7 +995,16 @@ def cases(rng, tier):
             if quick and how == "sync" and "seed_v" not in kw:
                 continue
             yield dict(kind="fall", sigma=rng.choice([0.1, 0]), nv=rng.choice([[3, 3, 1], [2, 2, 1], [2, 3, 1]]), nrep=3,
-                       pool=2, hows=[how], kw=kw, start=rng.choice([None, 8, 2]), decoy_start=rng.choice([None, 0, 6]))
+                       pool=2, hows=[how], kw=kw, start=rng.choice([None, 8, 2]), decoy_start=rng.choice([None, 0, 6]),
+                       xref=(how == "sequential"))
+    # Snowfall on a (1,1,1) batch with a one-element initial temperature; Snowfall after an object with a custom YAML
+    for how in ("sequential", "async", "sync"):
+        yield dict(kind="fall", sigma=0, nv=[1, 1, 1], nrep=3, pool=2, hows=[how],
+                   init=dict(form=rng.choice(["list", "array", "tuple"]), value=5))
+        yield dict(kind="fall", sigma=rng.choice([0.1, 0]), nv=[2, 2, 1], nrep=2, pool=2, hows=[how],
+                   decoy_yaml={"solution.solid_fraction": 0.12}, yaml=rng.choice([None, {"water.cp_w": 4050}]), xref=True)
+    yield dict(kind="fall", sigma=0, nv=[1, 1, 1], nrep=3, pool=2, hows=["sequential", "async"],
+               init=dict(form="list", value=5))
     # one Snowfall object run several times (sequential mutates the template)
     for hows in (["sequential", "sequential"], ["sequential", "async"], ["async", "sequential", "sync"]):
         for sigma in (0.1, 0):
